@@ -67,11 +67,77 @@ class Canon:
         return effects.rebuild(t, f)
 
 
+HOLE = ('hole',)
+
+
+def _resmap_form(body, ev, paths):
+    """(X, T) if the body is `Result::map(X, |v| T)` in combinator or in match form (T mentions the payload as HOLE), else None."""
+    rets = [r for r in paths if r.end == 'return']
+    if len(rets) != len([r for r in paths if r.end in ('return', 'backedge', 'diverge')]):
+        return None
+    pure = lambda r: not any(e['kind'] == 'write' or (e['kind'] == 'call' and e.get('uid') is not None) for e in r.events)
+    # combinator form
+    if len(rets) == 1 and not rets[0].preds and rets[0].ret is not None:
+        t = rets[0].ret
+        if t[0] == 'call' and str(t[1]).endswith('Result::<T, E>::map') and len(t[2]) == 2 and t[2][1][0] == 'agg' and isinstance(t[2][1][1], tuple) and t[2][1][1][0] == 'closure':
+            X, cl = t[2][0], t[2][1]
+            ib = body.facts.by_def.get(cl[1][1])
+            if ib is None:
+                return None
+            iev, ip = rules.evaluate(ib)
+            irets = [r for r in ip or [] if r.end == 'return']
+            if len(irets) != 1 or irets[0].preds or not pure(irets[0]) or len(ip) != 1:
+                return None
+            caps = cl[2]
+
+            def sub(n):
+                if n == ('arg', 2) or n == ('in', (2,)):
+                    return HOLE
+                if n and n[0] == 'in' and n[1] and n[1][0] == 1 and len(n[1]) >= 2 and isinstance(n[1][1], tuple) and n[1][1][0] == 'f':
+                    k = int(n[1][1][1])
+                    if k < len(caps):
+                        c = caps[k]
+                        rest = n[1][2:]
+                        if c[0] == 'ref' and rest[:1] == ('deref',):
+                            v = ev.final_read(rets[0], tuple(c[1]))
+                            if not rest[1:]:
+                                return v
+                            if v[0] == 'in':
+                                return ('in', v[1] + tuple(rest[1:]))
+                        elif not rest:
+                            return c
+                return None
+            return X, effects.rebuild(irets[0].ret, sub)
+        return None
+    # match form
+    if len(rets) == 2 and all(len(r.preds) == 1 and pure(r) and r.ret is not None for r in rets):
+        (t0, v0, _), (t1, v1, _) = rets[0].preds[0], rets[1].preds[0]
+        if t0 != t1 or t0[0] != 'discr':
+            return None
+        X = t0[1]
+        arms = {sym.discr_variant(t0, v0): rets[0].ret, sym.discr_variant(t1, v1): rets[1].ret}
+        if set(arms) != {'Ok', 'Err'} or X[0] != 'in':
+            return None
+        okr, errr = arms['Ok'], arms['Err']
+        is_variant = lambda a, name: a[0] == 'agg' and isinstance(a[1], tuple) and a[1][0] == 'adt' and a[1][1].endswith('Result') and a[1][2] == name and len(a[2]) == 1
+        if not is_variant(okr, 'Ok') or not is_variant(errr, 'Err'):
+            return None
+        if errr[2][0] != ('in', X[1] + (('dc', 'Err'), ('f', '0'))):
+            return None
+        payload = ('in', X[1] + (('dc', 'Ok'), ('f', '0')))
+        return X, effects.rebuild(okr[2][0], lambda n: HOLE if n == payload else None)
+    return None
+
+
 def fingerprint(body, canon=None):
     canon = canon or Canon(body.facts)
     ev, paths = rules.evaluate(body)
     if paths is None:
         return ('too-many-paths', body.defpath)
+    rm = _resmap_form(body, ev, paths)
+    if rm is not None:
+        # `x.map(|v| T(v))` and `match x { Ok(v) => Ok(T(v)), Err(e) => Err(e) }` are one function
+        return frozenset({('resmap', repr(canon.term(rm[0])), repr(canon.term(rm[1])))})
     out = set()
     for r in paths:
         if r.end not in ('return', 'backedge', 'diverge'):
